@@ -84,7 +84,12 @@ class C12(object):
             us.append(rng.random())
         rng.shuffle(us)
         return {'pmf': [f2bits(p) for p in pmf], 'base': base, 'joint': joint, 'us': [f2bits(u) for u in us],
-                'seed': rng.randrange(2 ** 31), 'zeros': zs, 'kind': kind}
+                'seed': rng.randrange(2 ** 31), 'zeros': zs, 'kind': kind, 'big': rng.choice([130, 130, 257, 1000])}
+
+    @staticmethod
+    def near_boundary(cums, us, eps=1e-9):
+        """Is some uniform within eps of a cumulative boundary (a base conversion may then move it across)?"""
+        return any(abs(u - c) <= eps for u in us for c in cums)
 
     def shrink(self, case):
         us = case['us']
@@ -140,8 +145,17 @@ class C12(object):
             for u in us:
                 o = d.rand(rand=u)
                 impl_single.append(index.get(o, 'not-an-outcome:%r' % (o,)))
+            st0 = repr(d.prng.get_state())
             many = d.rand(size=len(us), rand=np.array(us))
             impl_many = [index.get(o, 'not-an-outcome:%r' % (o,)) for o in many]
+            # large batches (a vectorised path may take over): the same numbers tiled to 130, 257 or 1000 draws
+            reps = -(-case.get('big', 130) // len(us))
+            big = (us * reps)
+            impl_big = [index.get(o, 'not-an-outcome:%r' % (o,)) for o in d.rand(size=len(big), rand=np.array(big))]
+            ext = np.random.RandomState(case['seed'])
+            ext0 = repr(ext.get_state())
+            d.rand(size=len(us), rand=np.array(us), prng=ext)
+            explicit_touches_prng = (repr(d.prng.get_state()) != st0) or (repr(ext.get_state()) != ext0)
         except Exception as e:  # noqa
             err = '%s: %s' % (type(e).__name__, e)
         if err is not None:
@@ -158,8 +172,12 @@ class C12(object):
         for p in lin:
             tot += p
             cums.append(tot)
-        for which, got in (('single', impl_single), ('size', impl_many)):
-            for u, i in zip(us, got):
+        if explicit_touches_prng:
+            r.oracle_fail = 'drawing with explicit random numbers advanced a generator (the draws of a later call are no longer the generator\'s next uniforms)'
+        for which, got, uu in (('single', impl_single, us), ('size', impl_many, us), ('size>=130', impl_big, big)):
+            if r.oracle_fail:
+                break
+            for u, i in zip(uu, got):
                 if not isinstance(i, int):
                     r.oracle_fail = 'rand(%s) returned %s' % (which, i)
                 elif not (lin[i] > 0):
@@ -199,15 +217,23 @@ class C12(object):
             else:
                 d.prng.seed(seed)
                 cp = d.copy()
+                other = [b_ for b_ in BASES if b_ != case['base']][seed % (len(BASES) - 1)]
+                cpb = d.copy(base=other)
+                d.rand(rand=0.25)                       # explicit numbers in between do not consume the generator
                 x = d.rand(size=k)
                 y = cp.rand(size=k)
+                z = cpb.rand(size=k)
                 if list(x) != list(y):
                     r.oracle_fail = 'copy does not reproduce the future draws of its source'
+                elif list(x) != list(z) and not self.near_boundary(cums, np.random.RandomState(seed).rand(k)):
+                    r.oracle_fail = 'copy(base=%r) does not reproduce the future draws of its source' % (other,)
         # ---- correspondence
         if impl_single != scanf:
             r.mismatch = 'rand(rand=u) indices %s != model %s' % (impl_single, scanf)
         elif impl_many != scanf:
             r.mismatch = 'rand(size=n, rand=us) indices %s != model %s' % (impl_many, scanf)
+        elif impl_big != scanf * reps:
+            r.mismatch = 'rand(size=%d, rand=us tiled) differs from the model scan' % len(big)
         r.detail = {'pmf_linear': lin, 'us': us, 'impl_single': impl_single, 'impl_many': impl_many,
                     'model_scan': scan, 'model_with_fallback': scanf}
         return r
